@@ -84,6 +84,7 @@ def revive(obj):
 # materialised at the SAME root (same path / URL), the second replacing the first, as a
 # re-delivered product does
 FIXED_NAME = None
+PAIR_INDEX = None  # 0 / 1 while the first / second product of an in-place pair runs
 
 
 class Materialised:
